@@ -103,6 +103,10 @@ def gen_sexa(seed, n, shard):
             a.set_tolerance(tol)
             if i % 2:
                 a = Angle(a)
+        if i % 7 == 3:
+            # an Angle that went through to_positive() (values just below zero end up just below 360)
+            a = Angle(-abs(v) if i % 14 == 3 else -10.0 ** -(5 + i % 17))
+            a.to_positive()
         val = a()
         fv = fx(val)
         vs = (val > 0) - (val < 0)
